@@ -104,14 +104,15 @@ theorem dhcp_removeOption_invM (d : Dhcp) (code : Nat) (hi : d.InvM) (hf : d.Fit
 
 /-- what a successful DHCP API call can be: one `add_option`, one `remove_option`, or a same-size header edit -/
 theorem dhcp_apply_cases (d d' : Dhcp) (op : List String) (hl : d.h.length = 236) (e : d.apply op = .ok d') :
-    (∃ o, d' = d.addOption o) ∨ (∃ c, d' = d.removeOption c) ∨ (∃ h', h'.length = 236 ∧ d' = { d with h := h' }) := by
+    (∃ o, d' = d.addOption o) ∨ (∃ s c, op = ["remove_option", s] ∧ d' = d.removeOption c)
+    ∨ (∃ h', h'.length = 236 ∧ d' = { d with h := h' }) := by
   unfold Dhcp.apply at e
   split at e
   · obtain ⟨c, _, e⟩ := bind_ok _ _ _ e
     obtain ⟨b, _, e⟩ := bind_ok _ _ _ e
     simp only [Out.pure_eq] at e; injection e with e; subst e; exact .inl ⟨_, rfl⟩
   · obtain ⟨c, _, e⟩ := bind_ok _ _ _ e
-    simp only [Out.pure_eq] at e; injection e with e; subst e; exact .inr (.inl ⟨_, rfl⟩)
+    simp only [Out.pure_eq] at e; injection e with e; subst e; exact .inr (.inl ⟨_, _, rfl, rfl⟩)
   · obtain ⟨c, _, e⟩ := bind_ok _ _ _ e
     simp only [Out.pure_eq] at e; injection e with e; subst e; exact .inl ⟨_, rfl⟩
   · simp only [Out.pure_eq] at e; injection e with e; subst e; exact .inl ⟨_, rfl⟩
@@ -129,7 +130,7 @@ theorem dhcp_apply_cases (d d' : Dhcp) (op : List String) (hl : d.h.length = 236
 /-- **every public DHCP call keeps the invariant** (from a state whose option list fits a `uint32_t`) -/
 theorem dhcp_apply_invM (d d' : Dhcp) (op : List String) (hi : d.InvM) (hf : d.Fits) (e : d.apply op = .ok d') :
     d'.InvM := by
-  rcases dhcp_apply_cases d d' op hi.hlen e with ⟨o, rfl⟩ | ⟨c, rfl⟩ | ⟨h', hl, rfl⟩
+  rcases dhcp_apply_cases d d' op hi.hlen e with ⟨o, rfl⟩ | ⟨_, c, _, rfl⟩ | ⟨h', hl, rfl⟩
   · exact dhcp_addOption_invM d o hi
   · exact dhcp_removeOption_invM d c hi hf
   · exact ⟨hl, hi.size⟩
@@ -228,7 +229,8 @@ theorem dhcpv6_removeOption_invM (d : Dhcpv6) (code : Nat) (hi : d.InvM) (hf : d
 
 /-- what a successful DHCPv6 API call can be -/
 theorem dhcpv6_apply_cases (d d' : Dhcpv6) (op : List String) (hl : d.h.length = 4) (e : d.apply op = .ok d') :
-    (∃ o, d' = d.addOption o) ∨ (∃ c, d' = d.removeOption c) ∨ (∃ h', h'.length = 4 ∧ d' = { d with h := h' })
+    (∃ o, d' = d.addOption o) ∨ (∃ s c, op = ["remove_option", s] ∧ d' = d.removeOption c)
+    ∨ (∃ h', h'.length = 4 ∧ d' = { d with h := h' })
     ∨ (∃ a, a.length = 16 ∧ d' = { d with peer := a }) ∨ (∃ a, a.length = 16 ∧ d' = { d with link := a }) := by
   unfold Dhcpv6.apply at e
   split at e
@@ -251,7 +253,7 @@ theorem dhcpv6_apply_cases (d d' : Dhcpv6) (op : List String) (hl : d.h.length =
     obtain ⟨b, _, e⟩ := bind_ok _ _ _ e
     simp only [Out.pure_eq] at e; injection e with e; subst e; exact .inl ⟨_, rfl⟩
   · obtain ⟨c, _, e⟩ := bind_ok _ _ _ e
-    simp only [Out.pure_eq] at e; injection e with e; subst e; exact .inr (.inl ⟨_, rfl⟩)
+    simp only [Out.pure_eq] at e; injection e with e; subst e; exact .inr (.inl ⟨_, _, rfl, rfl⟩)
   all_goals first
     | (simp only [Out.pure_eq] at e; injection e with e; subst e; exact .inl ⟨_, rfl⟩)
     | (obtain ⟨a1, _, e⟩ := bind_ok _ _ _ e
@@ -279,7 +281,7 @@ theorem dhcpv6_apply_cases (d d' : Dhcpv6) (op : List String) (hl : d.h.length =
 /-- **every public DHCPv6 call keeps the invariant** (from a state whose option list fits a `uint32_t`) -/
 theorem dhcpv6_apply_invM (d d' : Dhcpv6) (op : List String) (hi : d.InvM) (hf : d.Fits) (e : d.apply op = .ok d') :
     d'.InvM := by
-  rcases dhcpv6_apply_cases d d' op hi.hlen e with ⟨o, rfl⟩ | ⟨c, rfl⟩ | ⟨h', hl, rfl⟩ | ⟨a, ha, rfl⟩ | ⟨a, ha, rfl⟩
+  rcases dhcpv6_apply_cases d d' op hi.hlen e with ⟨o, rfl⟩ | ⟨_, c, _, rfl⟩ | ⟨h', hl, rfl⟩ | ⟨a, ha, rfl⟩ | ⟨a, ha, rfl⟩
   · exact dhcpv6_addOption_invM d o hi
   · exact dhcpv6_removeOption_invM d c hi hf
   · exact ⟨hl, hi.link, hi.peer, hi.size⟩
